@@ -111,6 +111,7 @@ pub struct Log {
     /// Store SocketTables hook events even without snapshots (multi-connection families).
     pub keep_tables: std::sync::atomic::AtomicBool,
     frozen: Mutex<Option<Us>>,
+    disabled: std::sync::atomic::AtomicBool,
 }
 
 impl Log {
@@ -121,13 +122,21 @@ impl Log {
             keep_snapshots,
             keep_tables: std::sync::atomic::AtomicBool::new(false),
             frozen: Mutex::new(None),
+            disabled: std::sync::atomic::AtomicBool::new(false),
         })
     }
     /// From now on every event is stamped with `t` (used once the runtime is gone).
     pub fn freeze(&self, t: Us) {
         *self.frozen.lock() = Some(t);
     }
+    /// Stop recording (stress binaries that only use the network, not the log).
+    pub fn disable(&self) {
+        self.disabled.store(true, std::sync::atomic::Ordering::Relaxed);
+    }
     pub fn push(&self, ev: Ev) {
+        if self.disabled.load(std::sync::atomic::Ordering::Relaxed) {
+            return;
+        }
         let t = match *self.frozen.lock() {
             Some(t) => t,
             None => self.clock.now_us(),
